@@ -1,5 +1,6 @@
 import NitroVerif.Lemmas.AstSchema
 import NitroVerif.Lemmas.SchemaIR
+import NitroVerif.Lemmas.Introspect
 import NitroVerif.Model.CliSchema
 import NitroVerif.Spec.IntrospectSpec
 /-!
@@ -89,5 +90,109 @@ example : WellFormed
                 { kind := .scalar, name := "Int" }],
       roots := { query := some "Query" } } :=
   ⟨by decide, by decide⟩
+
+/-- what the reader keeps of a schema value rendered as an introspection result: everything, with the components
+    outside a definition's kind emptied (`possibleTypes` of an interface is not read), first definition of a
+    repeated name kept, root-types node at a built-in position -/
+def readBack (s : Schema) : Schema :=
+  { desc := s.desc, roots := s.roots, explicitRoots := false,
+    types := extendTypes [] (s.types.map cleanType), directives := extendDirectives [] s.directives }
+
+/-- The reader inverts the specification's renderer: for EVERY schema value with a query root (arbitrary names,
+    descriptions, nesting depth of list / non-null types, arguments, deprecations, directive definitions), reading its
+    introspection result (spec §4 encoding, every optional key present) succeeds and returns the schema itself — no
+    field, argument, interface, enum value, input field, `ofType` level, `isDeprecated`/`deprecationReason`,
+    `isRepeatable`, default-value string or root name is lost or invented. -/
+theorem C15_reader_inverts_renderer (s : Schema) (url : String → Option String) (q : String)
+    (hq : s.roots.query = some q) :
+    Introspect.fromIntrospection (IntrospectSpec.encode s url) = .ok (readBack s) :=
+  Introspect.fromIntrospection_encode s url q hq
+
+/-- … in particular on the introspection result of a type-system document `M` whose query root exists -/
+theorem C15_schema_eq_reader (M : Gql.TsDoc) (q : String) (hq : (IntrospectSpec.specRoots M).query = some q) :
+    Introspect.fromIntrospection (IntrospectSpec.introspectSpec M) = .ok (readBack (IntrospectSpec.specSchema M)) :=
+  Introspect.fromIntrospection_encode _ _ q hq
+
+/-- the hypothesis is satisfiable: a document with a `Query` object type and no schema definition -/
+example : (IntrospectSpec.specRoots
+    [.typeDef { kind := .object, name := "Query", fields := [{ name := "a", ty := .named "Int" {} }] }]).query = some "Query" := by
+  decide
+
+/-- On a well-formed schema value the reader returns it unchanged up to the position bit. -/
+theorem C15_reader_identity (s : Schema) (url : String → Option String) (q : String) (hq : s.roots.query = some q)
+    (h : WellFormed s) (hd : (s.directives.map (·.name)).Nodup) :
+    Introspect.fromIntrospection (IntrospectSpec.encode s url) = .ok { s with explicitRoots := false } := by
+  rw [C15_reader_inverts_renderer s url q hq]
+  have hc : s.types.map cleanType = s.types := by
+    conv => rhs; rw [← List.map_id s.types]
+    exact List.map_congr_left fun t ht => by simpa using h.clean t ht
+  simp only [readBack, hc, extendTypes_nil_nodup _ h.nodup, extendDirectives_nil_nodup _ hd]
+
+/-- Root operation types that an introspection result declares are not replaced by the default names: with
+    `mutationType: null` a mutation has NO root type even if a type named `Mutation` exists (repaired behaviour;
+    `fix: root operation types declared by an introspection result are explicit`). -/
+theorem C15_declared_roots_no_default (s : Schema) (h : s.roots.query.isSome = true) (k : OpK) :
+    s.rootName k = s.roots.get k := by
+  simp [Schema.rootName, Schema.rootsDeclared, h]
+
+/-- After the repair of `extend_loaded_schema`, every built-in scalar is defined on the JSON route, whether or not the
+    introspection result lists it. -/
+theorem C15_builtin_scalars_defined (s : Schema) (n : String) (hn : n ∈ ["Int", "Float", "String", "Boolean", "ID"]) :
+    ((CliSchema.addBuiltinScalars s).typeDef? n).isSome = true := by
+  have key : ∀ (l acc : List ITypeDef), (∃ t ∈ acc ++ l, t.name = n) →
+      ((extendTypes acc l).find? (·.name == n)).isSome = true := by
+    intro l
+    induction l with
+    | nil =>
+      intro acc ⟨t, ht, hname⟩
+      simp only [extendTypes, List.find?_isSome]
+      exact ⟨t, by simpa using ht, by simp [hname]⟩
+    | cons x r ih =>
+      intro acc ⟨t, ht, hname⟩
+      simp only [extendTypes]
+      apply ih
+      split
+      · rename_i hany
+        rcases List.mem_append.mp ht with ha | hx
+        · exact ⟨t, by simp [ha], hname⟩
+        · rcases List.mem_cons.mp hx with rfl | hr
+          · obtain ⟨u, hu, hun⟩ := List.any_eq_true.mp hany
+            exact ⟨u, by simp [hu], by simpa [hname] using hun⟩
+          · exact ⟨t, by simp [hr], hname⟩
+      · exact ⟨t, by simpa using ht, hname⟩
+  simp only [CliSchema.addBuiltinScalars, Schema.typeDef?]
+  apply key
+  refine ⟨{ kind := .scalar, name := n }, ?_, rfl⟩
+  simp only [CliSchema.builtinScalarDefs, List.mem_append, List.mem_map]
+  exact Or.inr ⟨n, hn, rfl⟩
+
+/-!
+## OPEN — carried by K/O only
+
+```
+theorem C15_schema_eq (M : Gql.TsDoc) (h : ValidResolved M) :
+    ∃ s, CliSchema.routeJson (IntrospectSpec.introspectSpec M) = .ok s ∧ s ≃ CliSchema.routeSdl M
+```
+(`ValidResolved M`: distinct type and directive names, none `__`-prefixed or equal to a built-in's, at most one schema
+definition — parsed, listing `query` — or else an object type `Query`.)
+Proved above: `routeJson (introspectSpec M) = ok (addBuiltinScalars (readBack (specSchema M)))`
+(`C15_schema_eq_reader`), i.e. the JSON half is an identity. NOT proved: the remaining comparison of two pure
+functions of `M`, `addBuiltinScalars (readBack (specSchema M)) ≃ astToSchema (M ++ builtins)` (first-definition-wins
+lookup through `extendTypes` on both sides, referenced-built-in filter, `__*` names invisible to `viewType`, root
+names). It is EVALUATED by the driver (`(equiv (route.json …) (route.sdl …))`, `equivB`) on every generated schema
+of every run (failure signature `model-routes-not-equivalent:*`), and the real CLI routes are compared on the same
+cases (O).
+
+```
+theorem equivB_iff (a b : Schema) : equivB a b = true ↔ a ≃ b
+```
+The executable check used by the driver looks only at names occurring in either schema; its equivalence with `≃`
+(other names look up `none` on both sides) is not proved.
+
+That the REAL checker / printers read the schema only through `lookupOf` (the hypothesis under which `C15_check_eq` and
+`C15_types_eq` apply to them: descriptions, deprecation reasons and default-value texts reach JSDoc only; the order of
+definitions reaches declaration and union-member order only) is carried by O: same verdicts, diagnostics and
+per-alias declarations from two real CLI projects that differ in the schema file only.
+-/
 
 end NitroVerif.C15
